@@ -124,5 +124,17 @@ theorem reserve_one_is_the_source (v : VecSt) :
     v.reserveOne = KernelTie.applyEff v (Gen.Kernel.reserve_one v.len v.cap) ∧ Gen.Kernel.expand_one = .ok (.expand 1) :=
   KernelTie.reserve_one_tie v
 
+/-! ### fixed capacity over whole histories (Props/Refine.lean) -/
+
+/-- **a fixed-capacity vector keeps exactly its capacity through every history**: from any world in which vector `v`
+on a fixed storage (`Stack`, `StackN`, `Empty`) shows an abstract vector, after any sequence of element operations and
+`reserve` calls the world still shows an abstract vector of the same capacity - and along the way a value was refused
+exactly when the vector was full (`Refine.Spec.Room`), never before. -/
+theorem fixed_capacity_through_history (cfg : Cfg) (v ty : Nat) (ops : List Refine.VOp) (w : World) (s : Refine.Spec)
+    (h : Refine.Rel v ty w s) (hfx : s.fixed = true) (hall : ∀ op ∈ ops, op.Allowed s.fixed) :
+    ∃ s', Refine.Spec.Steps s ops s' ∧ Refine.Rel v ty (Refine.runOps cfg v ty w ops) s' ∧ s'.cap = s.cap := by
+  obtain ⟨s', hsteps, hrel⟩ := Refine.history_refines cfg v ty ops w s h hall
+  exact ⟨s', hsteps, hrel, hsteps.cap_fixed hfx hall⟩
+
 end C11
 end AnyVec
